@@ -106,7 +106,8 @@ PROP(C07) __CPROVER_ensures(FIRST2(rt->no) ==> (g_run_count == 1 && g_run_arg[0]
 /* handled: the block stays open for the caller to close, the recorded error is cleared */
 PROP(C07) __CPROVER_ensures((!NOMATCH(rt->no) && !g_run_throws[0]) ==> (OK && g_exec_depth == __CPROVER_old(g_exec_depth) && g_exec_pops == 0 && ctx->_last_error.no == EXC_RT_NOERROR))
 /* the handler itself fails: the block is closed exactly once and the handler's error propagates */
-PROP(C07) __CPROVER_ensures((!NOMATCH(rt->no) && g_run_throws[0]) ==> (!OK && __exc_obj == g_run_thrown_obj[0] && g_exec_depth == __CPROVER_old(g_exec_depth) - 1 && g_exec_pops == 1))
+/* (C06: the level seen by Context::onRuntimeError decides which loops it closes -- an unbalanced level leaves enclosing loops open) */
+PROP(C06, C07) __CPROVER_ensures((!NOMATCH(rt->no) && g_run_throws[0]) ==> (!OK && __exc_obj == g_run_thrown_obj[0] && g_exec_depth == __CPROVER_old(g_exec_depth) - 1 && g_exec_pops == 1))
 /* unmatched, or not catchable: no block runs, the block is closed exactly once, the same error propagates */
 PROP(C07) __CPROVER_ensures(NOMATCH(rt->no) ==> (g_run_count == 0 && !OK && THROWN_NO == rt->no && STR_ID(&((struct RuntimeError *)__exc_obj)->_base_Error._arg) == STR_ID(&rt->_base_Error._arg) && g_exec_depth == __CPROVER_old(g_exec_depth) - 1 && g_exec_pops == 1))
 PROP(C07) __CPROVER_ensures(!CATCHABLE(rt->no) ==> NOMATCH(rt->no))
@@ -127,7 +128,7 @@ __CPROVER_requires(__exc == 0 && __caught_n == 0 && g_run_count == 0 && g_exec_p
 __CPROVER_assigns(__CPROVER_object_whole(ctx))
 PROP(C01) __CPROVER_ensures(ONLY_RUNTIME_ERROR)
 /* the execution-level stack is balanced on every way out, never dips below the entry level, and the block runs one level up, opened by this statement */
-PROP(C07) __CPROVER_ensures(g_exec_depth == __CPROVER_old(g_exec_depth) && g_exec_pushes == 1 && g_exec_pops == 1 && g_exec_min == __CPROVER_old(g_exec_depth))
+PROP(C06, C07) __CPROVER_ensures(g_exec_depth == __CPROVER_old(g_exec_depth) && g_exec_pushes == 1 && g_exec_pops == 1 && g_exec_min == __CPROVER_old(g_exec_depth))
 PROP(C07) __CPROVER_ensures(g_run_count >= 1 && g_run_arg[0] == (const void *)&this->_exec->_statements && g_run_depth[0] == __CPROVER_old(g_exec_depth) + 1)
 /* no error: no handler runs, control continues after the block */
 PROP(C07) __CPROVER_ensures(!g_run_throws[0] ==> (g_run_count == 1 && OK && RET == NEXT))
